@@ -457,13 +457,15 @@ fn e2e_path(tag: &str) -> String {
         "rgi_3_2_t23" => format!("renamed::inner::{tag}"),
         "raw_4_1_t3" => format!("type::{tag}"),
         "z_0_2_t12" => format!("zero::{tag}"),
+        "s1_t2" | "s2_plain" | "s3_t3" | "s4_t12" => format!("sib::{tag}"),
         _ => tag.to_string(),
     };
     format!("hx_loop_e2e::{rel}")
 }
 
 /// Case: `bench=<tag> via=<cli|env|attr|attr+cli-n|builder|builder+env-n|builder+env-s> mode=<b|t> n=<n|-> s=<s> threads=<a,b,..>
-/// [mx=0] [bn=<builder count overridden by the environment>] [bs=..] [start=<main|api-test|api-bench|args-..>] [arg=<case below the benchmark>] [nomark=1]` (the
+/// [mx=0] [bn=<builder count overridden by the environment>] [bs=..] [start=<main|api-test|api-bench|args-..>] [arg=<case below the benchmark>] [nomark=1] [with=<siblings run along>]
+/// [maxs=<secs>] [mins=<secs>] [tvia=cli|env] [skipx=1] [vcost=<ticks per call on the virtual clock>] [timer=os|tsc]` (the
 /// effective values; `via` says where they are given).  Output: per thread
 /// count `t=T samples=.. iters=.. calls=<per thread index>` joined by `;`.
 fn run_e2e(line: &str) -> String {
@@ -509,7 +511,37 @@ fn run_e2e(line: &str) -> String {
             _ => "--bench",
         };
         // selected by its function name, whatever the groups above it are called
-        cmd.arg(flag).arg(format!("::{}(::|$)", get("bench")));
+        // `with=a,b`: sibling benchmarks run in the same process (the figures are still those of `bench`)
+        let mut names = vec![get("bench")];
+        if get("with") != "-" {
+            names.extend(get("with").split(','));
+        }
+        cmd.arg(flag).arg(format!("::({})(::|$)", names.join("|")));
+    }
+    // time limits as decimal seconds, on the command line or in the environment
+    let tenv = get("tvia") == "env";
+    for (tok, flag, var) in [("maxs", "--max-time", "DIVAN_MAX_TIME"), ("mins", "--min-time", "DIVAN_MIN_TIME")] {
+        if get(tok) != "-" {
+            if tenv {
+                cmd.env(var, get(tok));
+            } else {
+                cmd.arg(flag).arg(get(tok));
+            }
+        }
+    }
+    if get("skipx") == "1" {
+        if tenv {
+            cmd.env("DIVAN_SKIP_EXT_TIME", "true");
+        } else {
+            cmd.arg("--skip-ext-time");
+        }
+    }
+    // `vcost=<ticks per call>`: the benchmark runs on the virtual timestamp counter (1 tick = 1 ps)
+    if get("vcost") != "-" {
+        cmd.env("HX_VCLOCK", get("vcost"));
+        cmd.arg("--timer").arg("tsc");
+    } else if get("timer") != "-" {
+        cmd.arg("--timer").arg(get("timer"));
     }
     match get("via") {
         "cli" => {
@@ -664,7 +696,7 @@ fn run_e2e(line: &str) -> String {
 
 fn dispatch(mode: &str, line: &str) -> String {
     match mode {
-        "c03e2e" => run_e2e(line),
+        "c03e2e" | "c04cli" | "c04os" => run_e2e(line),
         "c03" | "c04" | "c19" | "loop" => run_case(line),
         _ => panic!("unknown mode {mode}"),
     }
